@@ -180,6 +180,16 @@ fn rflags_typed_roundtrip() -> [u64; 3] {
     [f0.bits(), f1.bits(), f2.bits()]
 }
 
+#[inline(never)]
+fn rflags_update_roundtrip() -> [u64; 3] {
+    let f0 = rflags::read();
+    unsafe { rflags::update(|f| f.toggle(RFlags::ID)) };
+    let f1 = rflags::read();
+    unsafe { rflags::update(|f| *f = f0) };
+    let f2 = rflags::read();
+    [f0.bits(), f1.bits(), f2.bits()]
+}
+
 /// two read-modify-write updates in one (inlinable) function: the second must see the first
 #[inline(never)]
 fn cr4_two_updates(a: u64, b: u64) -> [u64; 2] {
@@ -637,6 +647,21 @@ pub fn run_regs(out: &mut Out, seed: u64, _n: u64) {
             Ok(vec![])
         });
     }
+    for (a, b) in [(0u64, 0u64), (real & xmask & 1, 0), (real & xmask, 0), (1, 0), (0, real & xmask & !7 & !(real & xmask & 0x60)), (real & xmask & 6, 0)] {
+        // update = read (native xgetbv), closure, write (trapped xsetbv); results that are not a
+        // valid XCR0 value are rejected by write
+        call(out, Call { api: "XCr0::update", reg: Reg::None, pre: real, mask: xmask, p: [a, b, 0, 0] }, || {
+            let mut seen = 0;
+            unsafe {
+                XCr0::update(|f| {
+                    seen = f.bits();
+                    f.insert(XCr0Flags::from_bits_retain(a));
+                    f.remove(XCr0Flags::from_bits_retain(b));
+                })
+            };
+            Ok(vec![seen])
+        });
+    }
     call(out, Call { api: "XCr0::read", reg: Reg::None, pre: real, mask: xmask, p: [0; 4] }, || Ok(vec![XCr0::read().bits()]));
     call(out, Call { api: "XCr0::read_raw", reg: Reg::None, pre: real, mask: xmask, p: [0; 4] }, || Ok(vec![XCr0::read_raw()]));
 
@@ -729,6 +754,7 @@ pub fn run_regs(out: &mut Out, seed: u64, _n: u64) {
     for _ in 0..20 {
         out.emit(Ev::new("rflags_rt").str("kind", "raw").words("r", &rflags_id_roundtrip()).w("mask", RFlags::all().bits()));
         out.emit(Ev::new("rflags_rt").str("kind", "typed").words("r", &rflags_typed_roundtrip()).w("mask", RFlags::all().bits()));
+        out.emit(Ev::new("rflags_rt").str("kind", "update").words("r", &rflags_update_roundtrip()).w("mask", RFlags::all().bits()));
     }
     {
         use x86_64::registers::mxcsr::{self, MxCsr};
@@ -746,6 +772,15 @@ pub fn run_regs(out: &mut Out, seed: u64, _n: u64) {
             };
             // the exception flags (bits 0-5) are sticky status bits; compare what was written
             out.emit(Ev::new("mxcsr_rt").w("v", v as u64).w("got", got).w("ind", ind as u64).w("mask", all));
+            mxcsr::write(saved);
+            // the same through update: the closure sees the current value, what it leaves is stored
+            let mut seen = 0u32;
+            mxcsr::update(|m| {
+                seen = m.bits();
+                *m = MxCsr::from_bits_retain(v);
+            });
+            let got2 = mxcsr::read().bits() as u64;
+            out.emit(Ev::new("mxcsr_upd").w("v", v as u64).w("got", got2).w("seen", seen as u64).w("saved", saved.bits() as u64));
             mxcsr::write(saved);
         }
     }
